@@ -201,3 +201,18 @@ def r2b(ctx):
     for r in c03.r1(ctx):
         r.rule = "C14-R2b"
         yield r
+
+
+@M.rule("C14-R4", "a provider response cannot be built without a signing key")
+def r4_resp(ctx):
+    """`validate_signature` keys the HMAC with whatever key the response carries. The response builder refuses to build
+    when no key was set (derive_builder's UninitializedFieldError for `signing_key`); a struct-level `#[builder(default)]`
+    turns that into the all-zero key of `Default`, so a provider that ends with `Ok(builder.build()?)` authenticates an
+    unknown access key for anyone who signs with 32 zero bytes."""
+    b = ctx.fn("signing_key::GetSigningKeyResponseBuilder::build")
+    ctx.count()
+    uninit = [t for _, t in b.calls() if re.search(r"UninitializedFieldError", t.get("resolved_full", "") + t.get("callee", "")) and "signing_key" in [c_ for a_ in t["args"] for c_ in b.slice_op(a_).const_values()]]
+    if not uninit or not result_aggs(b, "Err", own_return=False) and not b.calls(r"FromResidual::from_residual$") and not any(s_["rv"].get("variant") == "Err" for _, _, s_ in b.aggregates(adt=r"^std::result::Result$")):
+        yield VIOL("C14-R4", "response-builder/signing-key-required", "GetSigningKeyResponseBuilder::build no longer fails when `signing_key` was never set: a default (all-zero) key stands in", where=loc(b.j["span"]))
+    else:
+        yield PASS("C14-R4", "response-builder/signing-key-required", "build() = Err(UninitializedFieldError(\"signing_key\")) when the key was not set", [loc(b.j["span"])])
